@@ -161,8 +161,9 @@ CLAIMS = {
         text="(1) Domains: Iter.lean models HashedIterable (memo + lazily consumed remainder); c04_domain_independent: after any "
              "history of full / abandoned / aborted evaluations the domains yield what fresh domains yield, and every L1 answer is "
              "a function of that; c04_dup_domain (an object listed twice is yielded once, first and later evaluations). (2) Node "
-             "state: Lifecycle transliterates finally:_reset_after_evaluation_(completed); c04_lifecycle_clean for all histories. "
-             "(3) user data is not part of any model state. Correspondence: pools of queries over shared variables, histories of "
+             "state: Lifecycle transliterates finally:_reset_after_evaluation_(completed); c04_lifecycle_clean for all histories; "
+             "c04_conj_any_state_partial: the L2 machine (evaluator with its caches and duplicate-tracking sets), caching disabled, "
+             "returns the L1 rows of a conjunctive query from ANY node state. (3) user data is not part of any model state. Correspondence: pools of queries over shared variables, histories of "
              "full / take-k-then-close / raise-at-j-th-predicate-call, duplicated domain objects, user data snapshots.",
         note=BASE_NOTE + "That a clean node state yields the fresh answer is the L1 semantics (caching off), tied to the code by the "
              "history correspondence; caching on is subject to C05-F1. Two simultaneously suspended iterators of one query are "
